@@ -80,6 +80,9 @@ def make_font(rng, lib, color=False, dotted=False):
                                "components": [(c, one + (Fr(10), Fr(0))), (q, one + (Fr(300), Fr(20)))]})
         desc["glyphs"].append({"name": "nested.last", "unicodes": [], "width": Fr(600), "contours": [], "anchors": [],
                                "components": [(q, one + (Fr(0), Fr(-5))), (c, one + (Fr(250), Fr(0)))]})
+    # a glyph with anchors and an advance but no outline at all: a filter that moves its anchors must report it
+    desc["glyphs"].append({"name": "blankbase", "unicodes": [], "width": Fr(360), "contours": [], "components": [],
+                           "anchors": [("top", Fr(180), Fr(300)), ("bottom", Fr(180), Fr(-20))]})
     # font-level metrics differ from font to font (a filter must not remember them)
     desc["info"] = {"capHeight": rng.choice([700, 600, 650, 720, 0]), "xHeight": rng.choice([500, 450, 520, 380]),
                     "ascender": rng.choice([800, 750]), "descender": rng.choice([-200, -250]), "unitsPerEm": rng.choice([1000, 2048])}
